@@ -293,7 +293,7 @@ func runR171(c *core.Ctx) {
 		for name := range vars {
 			v := name.(*types.Var)
 			nVars++
-			construct := "package variable " + v.Name()
+			construct := "package variable " + core.NameOf(v)
 			t := v.Type()
 			switch {
 			case isSyncType(t):
@@ -453,9 +453,9 @@ func classifyMethod(c *core.Ctx, f *types.Func, mut map[*types.Func]bool) string
 		if c.M.InModule(f.Pkg()) {
 			// a method of a module interface: it mutates if any implementation in the module does (class hierarchy)
 			if impl := mutatingImplementation(f, mut); impl != nil {
-				return "mutates: interface method " + f.Name() + " is implemented by " + impl.FullName() + ", which stores through its receiver"
+				return "mutates: interface method " + core.NameOf(f) + " is implemented by " + impl.FullName() + ", which stores through its receiver"
 			}
-			return "read: interface method " + f.Name() + " (no implementation in the module stores through its receiver)"
+			return "read: interface method " + core.NameOf(f) + " (no implementation in the module stores through its receiver)"
 		}
 		return "unknown: interface method " + f.FullName()
 	}
@@ -465,16 +465,16 @@ func classifyMethod(c *core.Ctx, f *types.Func, mut map[*types.Func]bool) string
 	}
 	if c.M.InModule(pkg) {
 		if mut[f.Origin()] {
-			return "mutates: method " + f.Name() + " stores through its receiver"
+			return "mutates: method " + core.NameOf(f) + " stores through its receiver"
 		}
 		return "read"
 	}
-	full := pkg.Path() + "." + recv.Obj().Name()
+	full := pkg.Path() + "." + core.NameOf(recv.Obj())
 	switch full {
 	case "strings.Replacer", "log.Logger", "regexp.Regexp", "sync.Map", "sync.Mutex", "sync.RWMutex", "sync.Once", "sync.WaitGroup", "sync.Pool":
 		return "read" // documented safe for concurrent use
 	case "math/rand.Rand":
-		return "mutates: *math/rand.Rand method " + f.Name() + " (a Rand built with rand.New is not safe for concurrent use)"
+		return "mutates: *math/rand.Rand method " + core.NameOf(f) + " (a Rand built with rand.New is not safe for concurrent use)"
 	}
 	return "unknown: method of external type " + full
 }
@@ -637,7 +637,7 @@ func mutatingImplementation(f *types.Func, mut map[*types.Func]bool) *types.Func
 	}
 	iface, _ := sig.Recv().Type().Underlying().(*types.Interface)
 	for m, isMut := range mut {
-		if !isMut || m.Name() != f.Name() {
+		if !isMut || core.NameOf(m) != core.NameOf(f) {
 			continue
 		}
 		ms, _ := m.Type().(*types.Signature)
@@ -665,7 +665,7 @@ func anyMutatingMethod(c *core.Ctx, v types.Object, mut map[*types.Func]bool) st
 			m := u.Method(i)
 			if m.Pkg() != nil && c.M.InModule(m.Pkg()) {
 				if impl := mutatingImplementation(m, mut); impl != nil {
-					return m.Name() + " (" + impl.FullName() + ")"
+					return core.NameOf(m) + " (" + impl.FullName() + ")"
 				}
 			}
 		}
@@ -673,7 +673,7 @@ func anyMutatingMethod(c *core.Ctx, v types.Object, mut map[*types.Func]bool) st
 		if n, ok := u.Elem().(*types.Named); ok && n.Obj().Pkg() != nil && c.M.InModule(n.Obj().Pkg()) {
 			for i := 0; i < n.NumMethods(); i++ {
 				if mut[n.Method(i).Origin()] {
-					return n.Method(i).Name()
+					return core.NameOf(n.Method(i))
 				}
 			}
 		}
@@ -728,7 +728,7 @@ func calleeMutatesParam(c *core.Ctx, inf *types.Info, call *ast.CallExpr, idx in
 			for _, file := range p.Syntax {
 				for _, d := range file.Decls {
 					fd, ok := d.(*ast.FuncDecl)
-					if !ok || fd.Recv == nil || fd.Name.Name != f.Name() || fd.Body == nil {
+					if !ok || fd.Recv == nil || fd.Name.Name != core.NameOf(f) || fd.Body == nil {
 						continue
 					}
 					m, _ := p.TypesInfo.Defs[fd.Name].(*types.Func)
